@@ -328,12 +328,58 @@ def case_graph_global(mon: Monitor, rng: random.Random) -> None:
     mon.obs["edges_listed_total"] += nlisted
 
 
-CASES = {"query": case_query, "graph": case_graph, "graph-global": case_graph_global}
+def case_graph_drift(mon: Monitor, rng: random.Random) -> None:
+    """Same CRS, no rotation, pixel-size ratio within a fraction of a percent of an integer (10 m against 10.004 m, 20.008 m, 30.008 m ...) on rasters thousands of
+    pixels across: the ratio must not be rounded, the difference accumulates to several pixels.  Oracle: interval arithmetic on tile edges in source pixels."""
+    from odc.geo.geobox import GeoBox, GeoboxTiles
+
+    r0 = rng.choice([10.0, 30.0, 0.00025])
+    k = rng.choice([1, 1, 2, 3])
+    eps = rng.choice([4e-4, -4e-4, 8e-4, 2.5e-4])
+    up = rng.random() < 0.5  # which side is the coarser one
+    rs_, rd_ = (r0, r0 * k * (1 + eps)) if up else (r0 * k * (1 + eps), r0)
+    N = rng.choice([3000, 5000, 8000])
+    sN, dN = (N, int(N / (k * (1 + eps))) - 7) if up else (int(N / (k * (1 + eps))) - 7, N)
+    x0, y0 = rng.uniform(-1e5, 1e5) * r0, rng.uniform(-1e5, 1e5) * r0
+    my = rng.choice([-1, -1, 1])
+    src = GeoBox((sN, sN), Affine(rs_, 0, x0, 0, my * rs_, y0), "EPSG:32633")
+    dst = GeoBox((dN, dN), Affine(rd_, 0, x0 + rng.randint(0, 5) * rs_, 0, my * rd_, y0 + my * rng.randint(0, 5) * rs_), "EPSG:32633")
+    st_n, dt_n = rng.choice([250, 512, 1000]), rng.choice([200, 256, 500])
+    st, dt = GeoboxTiles(src, (st_n, st_n)), GeoboxTiles(dst, (dt_n, dt_n))
+    desc = {"src": gen.gbox_desc(src), "src_tiles": st_n, "dst": gen.gbox_desc(dst), "dst_tiles": dt_n, "kind": "same|near-integer-scale", "ratio": rd_ / rs_}
+    deps, e = call(dt.grid_intersect, st)
+    if e is not None:
+        return mon.fail("GeoboxTiles.grid_intersect", {**desc, "exc": e}, key="grid-intersect-raises", cls="same|near-integer-scale")
+    P = np.linalg.inv(pairs.M3(src.affine)) @ pairs.M3(dst.affine)  # dst px -> src px (diagonal + translation)
+    edges = lambda n, t: [min(i * t, n) for i in range(-(-n // t) + 1)]
+    se, de = edges(sN, st_n), edges(dN, dt_n)
+    missing, nedge = [], 0
+    for r in range(len(de) - 1):
+        ya, yb = sorted((P[1, 1] * de[r] + P[1, 2], P[1, 1] * de[r + 1] + P[1, 2]))
+        for c in range(len(de) - 1):
+            xa, xb = sorted((P[0, 0] * de[c] + P[0, 2], P[0, 0] * de[c + 1] + P[0, 2]))
+            listed = {tuple(s_) for s_ in deps.get((r, c), [])}
+            for sr in range(len(se) - 1):
+                oy_ = min(yb, se[sr + 1]) - max(ya, se[sr])
+                if oy_ <= 0.01:
+                    continue
+                for sc in range(len(se) - 1):
+                    ox_ = min(xb, se[sc + 1]) - max(xa, se[sc])
+                    if ox_ > 0.01:  # more than a hundredth of a source pixel in both directions
+                        nedge += 1
+                        if (sr, sc) not in listed:
+                            missing.append(((r, c), (sr, sc), round(min(ox_, oy_), 3)))
+    mon.check(not missing, "GeoboxTiles.grid_intersect", lambda: {**desc, "missing_edges (dst tile, src tile, overlap in src px)": missing[:5], "n_missing": len(missing), "edges_required": nedge},
+              key="grid-intersect-missing-edge", cls="same|near-integer-scale", sig=hsig("gd", r0, k, eps, up, N, st_n, dt_n, my))
+    mon.obs["edges_required_total"] += nedge
+
+
+CASES = {"query": case_query, "graph": case_graph, "graph-global": case_graph_global, "graph-drift": case_graph_drift}
 
 
 def run(mon: Monitor, tier: str, seed: int, shard: int, nshards: int) -> None:
     rng = random.Random(seed * 1000 + shard + 12)
-    counts = {"query": 900, "graph": 500, "graph-global": 60} if tier == "quick" else {"query": 15000, "graph": 8000, "graph-global": 1200}
+    counts = {"query": 900, "graph": 500, "graph-global": 60, "graph-drift": 12} if tier == "quick" else {"query": 15000, "graph": 8000, "graph-global": 1200, "graph-drift": 200}
     for kind, n in counts.items():
         for _ in range(n):
             rs = rng.getrandbits(48)
@@ -348,6 +394,7 @@ def run(mon: Monitor, tier: str, seed: int, shard: int, nshards: int) -> None:
                   ("GeoboxTiles.tiles|geometry|same-crs|larger", 10), ("GeoboxTiles.tiles|geometry|same-crs|touch", 5)]:
         mon.floor(pt, n)
     mon.floor("GeoboxTiles.grid_intersect|same|far|disjoint", 10)
+    mon.floor("GeoboxTiles.grid_intersect|same|near-integer-scale", 8)
     for c_ in ("EPSG:32633", "EPSG:3577", "EPSG:3035"):
         mon.floor("GeoboxTiles.grid_intersect|cross|global-source|" + c_, 2)
     mon.floor("GeoboxTiles.grid_intersect|cross|far|disjoint", 5)
